@@ -1,0 +1,31 @@
+//go:build verif
+
+package httpflv
+
+import (
+	"net"
+
+	"github.com/q191201771/naza/pkg/connection"
+)
+
+// VerifPullReadResponse reads an http-flv response (status line, headers, flv header, tags) from conn in the calling goroutine,
+// as PullSession does after it sent its request. Returns the status code, the number of tags read and the error that ended the loop.
+func VerifPullReadResponse(conn net.Conn) (statusCode string, tags int, err error) {
+	session := NewPullSession()
+	session.conn = connection.New(conn, func(option *connection.Option) {
+		option.ReadBufSize = readBufSize
+	})
+	statusCode, _, err = session.readHttpRespHeader()
+	if err != nil {
+		return
+	}
+	if _, err = session.readFlvHeader(); err != nil {
+		return
+	}
+	for {
+		if _, err = session.readTag(); err != nil {
+			return
+		}
+		tags++
+	}
+}
